@@ -2247,10 +2247,23 @@ class KmipEngine(object):
 
                     # Fetch the attribute from the object and check if it
                     # matches. If not, the object doesn't match, so skip it.
-                    attribute = self._get_attribute_from_managed_object(
-                        managed_object,
-                        name
-                    )
+                    try:
+                        attribute = self._get_attribute_from_managed_object(
+                            managed_object,
+                            name
+                        )
+                    except AttributeError:
+                        # The attribute is applicable to the object type
+                        # but this kind of object does not carry it (e.g.,
+                        # certificates have no cryptographic algorithm or
+                        # length), so the object cannot match the filter.
+                        self._logger.debug(
+                            "Failed match: "
+                            "the object does not have the specified "
+                            "attribute ({}).".format(name)
+                        )
+                        add_object = False
+                        break
                     if attribute is None:
                         continue
                     elif name == "Application Specific Information":
